@@ -352,11 +352,19 @@ def pipeline(path, seed, runs, full):
     canon = lambda d: sorted([[str(k), v if isinstance(v, list) else [v]] for k, v in d.items()], key=lambda kv: kv[0])
     for nm, fn in (("taxa_link", lambda: clustering.link_clustering(thr, [r[:] for r in dm], list(lex.cols))),
                    ("taxa_link_nf", lambda: clustering.link_clustering(thr, [r[:] for r in dm], list(lex.cols), fuzzy=False)),
+                   ("taxa_link_lt", lambda: clustering.link_clustering(thr, [r[:] for r in dm], list(lex.cols),
+                                                                        link_threshold=0.5, fuzzy=False)),
+                   ("taxa_link_lt_rev", lambda: clustering.link_clustering(thr, [r[:] for r in dm], list(lex.cols),
+                                                                            link_threshold=0.3, revert=True)),
+                   ("taxa_link_w", lambda: clustering.link_clustering(thr, [r[:] for r in dm], list(lex.cols),
+                                                                       link_threshold=0.5, fuzzy=False,
+                                                                       matrix_type='weights')),
                    ("taxa_mcl", lambda: clustering.mcl(thr, [r[:] for r in dm], list(lex.cols))),
                    ("taxa_flat", lambda: clustering.flat_cluster('upgma', thr, [r[:] for r in dm], list(lex.cols)))):
-        # link clustering of STRING node names numbers its clusters in the iteration order of a set of
-        # string pairs: the labels (not the partition) depend on the hash seed.  Cognate detection calls it
-        # with integer nodes (deterministic), so the string-node run is recorded but is not part of C18.
+        # link clustering of STRING node names: on the tree at 1c54340 HLC numbers the link communities in the
+        # iteration order of a set of string pairs, so labels (and with fuzzy=False the partition) depend on the
+        # hash seed.  Cognate detection calls it with integer nodes (deterministic).  These direct calls are kept
+        # apart ("aux"); what a difference means is decided by known_findings.json (see props/C18.link_policy).
         target = out.setdefault("aux", {}) if nm.startswith("taxa_link") else e2e
         try:
             target[nm] = canon(fn())
